@@ -92,4 +92,87 @@ theorem roundtrip (cls : Cls) (kw : List (String × PyVal)) (d : Instance)
     rw [lookup_map_fields (fieldsOf cls) (fun f => (kw.lookup f.name).getD f.default) hnd g hg]
     rfl
   rw [hmap, ← ha, ← hc]
+/-! ### dataclass field collection -/
+theorem setField_names (fs : List Field) (f : Field) :
+    (setField fs f).map (·.name) = if fs.any (·.name == f.name) then fs.map (·.name) else fs.map (·.name) ++ [f.name] := by
+  unfold setField
+  split
+  · simp only [map_map]
+    apply map_congr_left
+    intro g _
+    simp only [Function.comp]
+    split
+    · rename_i h; simp at h; exact h.symm
+    · rfl
+  · simp
+
+theorem setField_nodup (fs : List Field) (f : Field) (h : (fs.map (·.name)).Nodup) :
+    ((setField fs f).map (·.name)).Nodup := by
+  rw [setField_names]
+  split
+  · exact h
+  · rename_i hany
+    rw [nodup_append]
+    refine ⟨h, by simp, ?_⟩
+    intro a ha b hb
+    simp only [mem_singleton] at hb
+    subst hb
+    intro hab
+    subst hab
+    apply hany
+    rw [any_eq_true]
+    obtain ⟨g, hg, hgn⟩ := mem_map.mp ha
+    exact ⟨g, hg, by simp [hgn]⟩
+
+theorem mem_setField_self (fs : List Field) (f : Field) : f ∈ setField fs f := by
+  unfold setField
+  split
+  · rename_i hany
+    rw [any_eq_true] at hany
+    obtain ⟨g, hg, hgn⟩ := hany
+    rw [mem_map]
+    exact ⟨g, hg, by simp [hgn]⟩
+  · simp
+
+theorem mem_setField_other (fs : List Field) (f g : Field) (hg : g ∈ fs) (hne : g.name ≠ f.name) :
+    g ∈ setField fs f := by
+  unfold setField
+  split
+  · rw [mem_map]
+    refine ⟨g, hg, ?_⟩
+    have : (g.name == f.name) = false := by simp [hne]
+    simp [this]
+  · simp [hg]
+
+theorem foldl_setField_nodup (fs : List Field) (ann : List Field) (h : (fs.map (·.name)).Nodup) :
+    ((ann.foldl setField fs).map (·.name)).Nodup := by
+  induction ann generalizing fs with
+  | nil => exact h
+  | cons a rest ih => exact ih _ (setField_nodup fs a h)
+
+theorem mem_foldl_setField (fs : List Field) (ann : List Field) (hnd : (ann.map (·.name)).Nodup)
+    (f : Field) (hf : f ∈ ann) : f ∈ ann.foldl setField fs := by
+  induction ann generalizing fs with
+  | nil => simp at hf
+  | cons a rest ih =>
+    simp only [map_cons, nodup_cons] at hnd
+    simp only [foldl_cons]
+    rcases mem_cons.mp hf with rfl | hf'
+    · -- f inserted first, later insertions have other names
+      have key : ∀ (l : List Field) (gs : List Field), f ∈ gs → (∀ x ∈ l, x.name ≠ f.name) → f ∈ l.foldl setField gs := by
+        intro l
+        induction l with
+        | nil => intro gs h _; exact h
+        | cons b bs ihb =>
+          intro gs h hne
+          simp only [foldl_cons]
+          apply ihb
+          · exact mem_setField_other gs b f h (fun e => hne b (by simp) e.symm)
+          · intro x hx; exact hne x (by simp [hx])
+      apply key rest _ (mem_setField_self fs f)
+      intro x hx hxe
+      exact hnd.1 (by rw [← hxe]; exact mem_map_of_mem hx)
+    · exact ih _ hnd.2 hf'
+
+
 end ModelD.Params
